@@ -52,12 +52,23 @@ def make_data(cfg):
     rg = cfg.get('rdm_groups')
     pg = cfg.get('pat_groups')
     if rg is not None:
-        d.rdm_descriptors['g'] = [['gb', 'ga', 'gd', 'gc', 'ge'][v] for v in rg]
+        if cfg.get('rdm_labels') == 'time':
+            # float labels that are large relative to their spacing (acquisition time stamps)
+            d.rdm_descriptors['g'] = [1700000000.0 + 600.0 * [1, 0, 3, 2, 4][v] for v in rg]
+        elif cfg.get('rdm_labels') == 'tiny':
+            # float labels of small magnitude (distinct, all below 1e-8)
+            d.rdm_descriptors['g'] = [1e-9 * [2, 1, 4, 3, 5][v] for v in rg]
+        else:
+            d.rdm_descriptors['g'] = [['gb', 'ga', 'gd', 'gc', 'ge'][v] for v in rg]
     if pg is not None:
         # grouping is a function of the condition id (copies share the group of their original)
         if cfg.get('pat_labels') == 'str':
             # string labels, some of which are substrings of others (stim1 / stim10 / stim11)
             vals = [['stim10', 'stim1', 'stim11', 'stim2', 'stim21', 'stim', 'stim12'][pg[c]] for c in cids]
+        elif cfg.get('pat_labels') == 'time':
+            vals = [1700000000.0 + 600.0 * [3, 1, 2, 5, 4, 6, 7][pg[c]] for c in cids]
+        elif cfg.get('pat_labels') == 'tiny':
+            vals = [1e-9 * [3, 1, 2, 5, 4, 6, 7][pg[c]] for c in cids]
         else:
             vals = [[30, 10, 20, 50, 40, 60, 70][pg[c]] for c in cids]
         d.pattern_descriptors['pg'] = np.array(vals) if cfg.get('container') == 'ndarray' else vals
@@ -317,6 +328,34 @@ def configs(tier):
                 for size in range(1, ngp // 2 + 1):
                     for rnd in (False, True):
                         out.append(dict(base, gen='sets_of_k_pattern', size=size, random=rnd))
+    # histories on one object: folds, then an in-place re-ordering / append, then folds again
+    for hist in ('folds-sort', 'folds-sort-noreindex', 'folds-reorder', 'folds-append'):
+        for pd, pg in (('index', None), ('cid', None), ('pg', [0, 1, 0, 2])):
+            base = {'n_rdm': 2, 'n_cond': 4, 'rdm_desc': 'index', 'rdm_groups': None, 'pat_desc': pd, 'pat_groups': pg,
+                    'cids': None, 'history': hist}
+            out.append(dict(base, gen='sets_leave_one_out_pattern'))
+            out.append(dict(base, gen='sets_k_fold_pattern', k_pattern=2, random=False))
+            out.append(dict(base, gen='sets_k_fold_pattern', k_pattern=2, random=True))
+            out.append(dict(base, gen='sets_of_k_pattern', size=1, random=False))
+            out.append(dict(base, gen='sets_k_fold', k_rdm=2, k_pattern=2, random=False))
+            out.append(dict(base, gen='sets_leave_one_out_rdm'))
+    # float group labels that np.isclose (default tolerances) cannot tell apart: time stamps, tiny values
+    for lab in ('time', 'tiny'):
+        for n_rdm, rg in ((3, [0, 1, 2]), (4, [0, 1, 1, 2]), (4, [0, 1, 2, 0])):
+            base = {'n_rdm': n_rdm, 'n_cond': 4, 'rdm_desc': 'g', 'rdm_groups': rg, 'pat_desc': 'index', 'pat_groups': None,
+                    'rdm_labels': lab}
+            out.append(dict(base, gen='sets_leave_one_out_rdm'))
+            for rnd in (False, True):
+                out.append(dict(base, gen='sets_k_fold_rdm', k_rdm=2, random=rnd))
+                out.append(dict(base, gen='sets_k_fold', k_rdm=3, k_pattern=1, random=rnd))
+            out.append(dict(base, gen='sets_of_k_rdm', size=1, random=False))
+        for n_cond, pg in ((4, [0, 1, 2, 3]), (5, [0, 1, 1, 2, 0])):
+            base = {'n_rdm': 2, 'n_cond': n_cond, 'rdm_desc': 'index', 'rdm_groups': None, 'pat_desc': 'pg', 'pat_groups': pg,
+                    'cids': None, 'pat_labels': lab}
+            out.append(dict(base, gen='sets_leave_one_out_pattern'))
+            for rnd in (False, True):
+                out.append(dict(base, gen='sets_k_fold_pattern', k_pattern=2, random=rnd))
+            out.append(dict(base, gen='sets_of_k_pattern', size=1, random=False))
     # group counts that leave a remainder larger than the number of folds (11 groups of size 4 -> 2 folds and
     # 3 surplus groups; 14 of size 5 -> 2 folds and 4 surplus): every group is still tested exactly once
     for n, k in ((11, 4), (14, 5), (7, 3)):
@@ -397,6 +436,21 @@ def _explore_cfg(cfg, ctx, tier, each):
 
     def run(env):
         data = make_data(cfg)
+        if cfg.get('history'):
+            # a history on ONE object: folds are generated once (default shuffles), the object is then re-ordered in
+            # place, and the explored call follows - nothing an earlier call may have left on the object may
+            # describe the old order
+            with rngenv.installed(rngenv.RngEnv(choice.Env([]))):
+                call_generator(cfg, data)
+            if cfg['history'] == 'folds-sort':
+                data.sort_by(name='alpha')
+            elif cfg['history'] == 'folds-sort-noreindex':
+                data.sort_by(reindex=False, name='alpha')
+            elif cfg['history'] == 'folds-reorder':
+                data.reorder(([2, 0, 3, 1] + list(range(4, data.n_cond)))[:data.n_cond])
+            elif cfg['history'] == 'folds-append':
+                data.append(selfdesc.build([cfg['n_rdm']], cfg.get('cids') or list(range(cfg['n_cond'])),
+                                           container=cfg.get('container', 'list')))
         fp = _content(data)
         rng = rngenv.RngEnv(env)
         with rngenv.installed(rng):
